@@ -154,6 +154,9 @@ class CoFuture:
 
 
 def co_result(f):
+    inner = getattr(f, '_future', None)
+    if isinstance(inner, CoFuture):
+        f = inner                  # s3transfer's ExecutorFuture around a model future
     if not isinstance(f, CoFuture):
         return f.result()
     while not f._done:
@@ -166,6 +169,15 @@ def co_result(f):
 def co_call(obj, name, *a, **k):
     """call obj.<name>: its generator co-version when the object's class has one, else the plain method (atomic)"""
     f = getattr(obj, '_co_' + name, None)
+    if f is not None:
+        # a co-version generated for a base class must not shadow a plain override in a subclass
+        mro = type(obj).__mro__ if not isinstance(obj, super) else ()
+        for kls in mro:
+            if ('_co_' + name) in kls.__dict__:
+                break
+            if name in kls.__dict__:
+                f = None
+                break
     if f is None:
         return getattr(obj, name)(*a, **k)
         yield   # noqa  (makes this a generator function)
@@ -184,10 +196,12 @@ def _is_lock_expr(node):
 
 
 class CoTransformer(ast.NodeTransformer):
-    def __init__(self, co_names, shared=None):
+    def __init__(self, co_names, shared=None, dispatch=(), clsname=None):
         self.co_names = co_names
         self.in_lock = 0
         self.shared = shared      # tokens naming shared state; None = every statement is a switch point
+        self.dispatch = set(dispatch)   # method names dispatched through co_call on ANY receiver
+        self.clsname = clsname
 
     def _touches_shared(self, s):
         """partial-order reduction: a statement that only touches thread-local state commutes with everything"""
@@ -267,6 +281,15 @@ class CoTransformer(ast.NodeTransformer):
                 call = ast.Call(ast.Name('co_call', ast.Load()), [f.value, ast.Constant(f.attr)] + node.args,
                                 node.keywords)
                 return ast.YieldFrom(call)
+            if f.attr in self.dispatch and not (f.attr in ('acquire', 'release', 'wait') and _is_lock_expr(f.value)):
+                recv = f.value
+                if isinstance(recv, ast.Call) and isinstance(recv.func, ast.Name) and recv.func.id == 'super' \
+                        and not recv.args and self.clsname:
+                    recv = ast.Call(ast.Name('super', ast.Load()),
+                                    [ast.Name(self.clsname, ast.Load()), ast.Name('self', ast.Load())], [])
+                call = ast.Call(ast.Name('co_call', ast.Load()), [recv, ast.Constant(f.attr)] + node.args,
+                                node.keywords)
+                return ast.YieldFrom(call)
             if f.attr == 'acquire' and _is_lock_expr(f.value) and not node.args:
                 return ast.YieldFrom(ast.Call(ast.Name('co_acquire', ast.Load()), [f.value], []))
             if f.attr == 'wait' and _is_lock_expr(f.value):
@@ -281,7 +304,7 @@ class CoTransformer(ast.NodeTransformer):
         return node
 
 
-def make_co(cls, names, module, shared=None):
+def make_co(cls, names, module, shared=None, dispatch=()):
     """install _co_<name> generator versions of the listed methods on cls; returns the names that were found"""
     ns = dict(vars(module))
     ns.update(co_acquire=co_acquire, co_wait=co_wait, co_get=co_get, co_event_wait=co_event_wait, co_result=co_result, co_call=co_call)
@@ -297,7 +320,7 @@ def make_co(cls, names, module, shared=None):
             continue
         src = textwrap.dedent(inspect.getsource(fn))
         tree = ast.parse(src)
-        t = CoTransformer(set(names), shared)
+        t = CoTransformer(set(names), shared, dispatch, cls.__name__)
         tree.body[0] = t.visit(tree.body[0])
         ast.fix_missing_locations(tree)
         exec(compile(tree, '<co %s.%s>' % (cls.__name__, name), 'exec'), ns)
@@ -338,13 +361,14 @@ class Scheduler:
                 return i
         return n - 1
 
-    def run(self, gens, on_step=None):
+    def run(self, gens, on_step=None, daemons=()):
         alive = [True] * len(gens)
         blocked = [False] * len(gens)
         born = [0] * len(gens)        # scheduler step at which a thread came into existence
         cur = None
         steps = 0
-        while any(alive) or len(gens) > len(alive):
+        while any(a for j, a in enumerate(alive) if j not in daemons) or len(gens) > len(alive) or \
+                any(alive[j] and not blocked[j] for j in daemons if j < len(alive)):
             while len(alive) < len(gens):      # threads spawned while running (executor model)
                 alive.append(True)
                 blocked.append(False)
